@@ -458,6 +458,10 @@ def _build_eval_tree(
                     assert result is not None
                     return result, index - 1
             elif token_text == "(":
+                if result and op_priority[""] <= op_priority.get(prev_op, -1):
+                    # implicit op with a parenthetical group: the previous operator
+                    # has higher or equal priority, so end previous binary op
+                    return result, index - 1
                 # gather parenthetical group
                 right, index = _build_eval_tree(
                     tokens, op_priority, index + 1, 0, token_text
